@@ -22,7 +22,9 @@ class RemoveObject(SuiteTransformer):
                 return True
             elif isinstance(node, (ast.FunctionDef, ast.AsyncFunctionDef, ast.ClassDef)) and node.name == 'object':
                 return True
-            elif isinstance(node, ast.alias) and (node.asname or node.name) == 'object':
+            elif isinstance(node, ast.alias) and (node.asname or node.name.split('.')[0]) == 'object':
+                return True
+            elif isinstance(node, (ast.TypeVar, ast.ParamSpec, ast.TypeVarTuple)) and node.name == 'object':
                 return True
             elif isinstance(node, ast.arg) and node.arg == 'object':
                 return True
